@@ -283,8 +283,11 @@ class Env:
         for f in cs.faults:
             if f.get("site") == site and (f.get("at") == "always" or f.get("at") == idx):
                 self.fired(f.get("kind", "callback_raise"))
-                self.ev("FAULT", site=site, idx=idx, exc=f["exc"])
-                return make_fault_exc(f["exc"])
+                exc = make_fault_exc(f["exc"])
+                lab = f"F{site}{idx}c{cs.cid}"
+                cs.objects[lab] = exc
+                self.ev("FAULT", site=site, idx=idx, exc=f["exc"], obj=lab)
+                return exc
         return None
 
     # -- time-consuming primitives ---------------------------------------
